@@ -71,6 +71,7 @@ func genConfig(t *rapid.T) doc.Config {
 		UnknownSteps: rapid.IntRange(0, 3).Draw(t, "unknown") == 0,
 		BothCommands: true,
 		Signature:    true,
+		MixedKinds:   true,
 	}
 }
 
@@ -89,7 +90,7 @@ func checkFixpoint(t *rapid.T, leg string, text []byte, g *doc.G) (nontrivial bo
 	p, err := safeParse(text)
 	if err != nil && !warning.Is(err) {
 		// a hard failure on a generated document: only C03 / C13 judge that; here nothing can be compared
-		rec.Excluded("first parse hard-failed (not this property's business)")
+		curRec.Excluded("first parse hard-failed (not this property's business)")
 		return false, false
 	}
 	clean := err == nil
@@ -97,14 +98,14 @@ func checkFixpoint(t *rapid.T, leg string, text []byte, g *doc.G) (nontrivial bo
 	unsafe := func(s string) bool { return !strs.YAMLLegOK(s) }
 	yamlOK := !doc.HasString(ref, unsafe)
 	if !yamlOK {
-		rec.Excluded("yaml-leg: multi-line string beginning with white space")
+		curRec.Excluded("yaml-leg: multi-line string beginning with white space")
 	}
 	if ev.Known("F9") && doc.HasKey(ref, func(k string) bool { return k == "<<" }) {
 		yamlOK = false
-		rec.Excluded("yaml-leg: mapping key << (known finding F9)")
+		curRec.Excluded("yaml-leg: mapping key << (known finding F9)")
 	}
 	if ev.Known("F10") && probe.F10Class(p.Steps) {
-		rec.Excluded("empty key/label next to an alias (known finding F10)")
+		curRec.Excluded("empty key/label next to an alias (known finding F10)")
 		return false, false
 	}
 	// determinism of marshalling
@@ -112,7 +113,7 @@ func checkFixpoint(t *rapid.T, leg string, text []byte, g *doc.G) (nontrivial bo
 	if err != nil {
 		var uv *json.UnsupportedValueError
 		if errors.As(err, &uv) {
-			rec.Excluded("non-finite float (C13 / F7)")
+			curRec.Excluded("non-finite float (C13 / F7)")
 			return false, false
 		}
 		t.Fatalf("[%s] json.Marshal: %v\n%s", leg, err, text)
@@ -132,7 +133,7 @@ func checkFixpoint(t *rapid.T, leg string, text []byte, g *doc.G) (nontrivial bo
 		detOK := true
 		if ev.Known("F11") && doc.HasKey(ref, probe.LongDigitRun) {
 			detOK = false
-			rec.Excluded("yaml byte-determinism: key with an overflowing digit run (known finding F11)")
+			curRec.Excluded("yaml byte-determinism: key with an overflowing digit run (known finding F11)")
 		}
 		for i := 0; i < 4 && detOK; i++ {
 			yb2, _ := yaml.Marshal(p)
@@ -219,8 +220,123 @@ func checkFixpoint(t *rapid.T, leg string, text []byte, g *doc.G) (nontrivial bo
 	return nontrivial, true
 }
 
+// curRec: the evidence record exclusions made inside checkFixpoint go to (tests run one after the other)
+var curRec = rec
+
 func TestPropFixpoint(t *testing.T) {
+	curRec = rec
 	ev.Check(t, 900, 12000, fixpointCase)
+}
+
+// Deeply nested documents. Normalisation deepens some short forms (a bare step list gains `steps`, a
+// bare-string plugin becomes a one-entry mapping, `cache: path` becomes {paths: [path]}, a simple
+// matrix list stays a list), so any limit on nesting that applies to the text as written rather than
+// to the normal form lets a document in and then refuses the library's own output.
+var recDeep = ev.New("TestPropDeepNesting", "documents nested 1-320 levels deep (half of the depths drawn uniformly, half within 6 of a round number: 16, 32, 50, 64, 100, 128, 200, 250, 256), the depth made of nested group steps and/or of sequences and mappings inside an unknown field, a plugin config or an env-less step, ending in a form that normalisation deepens (bare-string plugin, `cache: path`, bare step list) or does not; same oracle as TestPropFixpoint (a document the first parse refuses is excluded and counted); non-trivial = deeper than 40 levels and ending in a deepening form; distinct by hash of the text")
+
+func TestPropDeepNesting(t *testing.T) {
+	curRec = recDeep
+	defer func() { curRec = rec }()
+	ev.Check(t, 600, 12000, func(t *rapid.T) {
+		depth := rapid.IntRange(1, 320).Draw(t, "depth")
+		if rapid.Bool().Draw(t, "round") {
+			depth = rapid.SampledFrom([]int{16, 32, 50, 64, 100, 128, 200, 250, 256}).Draw(t, "base") + rapid.IntRange(-6, 6).Draw(t, "off")
+		}
+		g := doc.NewG(t, doc.Config{})
+		g.Canon["docker#v5"] = "github.com/buildkite-plugins/docker-buildkite-plugin#v5"
+		g.Canon["my-org/thing#v1"] = "github.com/my-org/thing-buildkite-plugin#v1"
+		// innermost command step
+		tail := rapid.IntRange(0, 5).Draw(t, "tail")
+		deepening := false
+		var inner *yaml.Node
+		stepKV := []*yaml.Node{doc.StrNode("command"), doc.StrNode("echo")}
+		// how many of the levels are spent on data nested inside the innermost step
+		dataLevels := 0
+		if rapid.Bool().Draw(t, "data") {
+			dataLevels = rapid.IntRange(0, depth).Draw(t, "datalevels")
+		}
+		leaf := func() *yaml.Node {
+			switch tail {
+			case 0:
+				deepening = true
+				return doc.SeqNode(true, doc.StrNode("docker#v5")) // a plugin list of one bare string (when used as plugins) / a list
+			default:
+				return doc.StrNode("leaf")
+			}
+		}
+		nest := func(n int, v *yaml.Node) *yaml.Node {
+			for i := 0; i < n; i++ {
+				if rapid.Bool().Draw(t, "seqormap") {
+					v = doc.SeqNode(true, v)
+				} else {
+					v = doc.MapNode(true, doc.StrNode("k"), v)
+				}
+			}
+			return v
+		}
+		switch tail {
+		case 0:
+			// plugins: [docker#v5] - and the data levels in another plugin's config
+			pl := doc.SeqNode(true, doc.StrNode("docker#v5"))
+			if dataLevels > 0 {
+				pl.Content = append(pl.Content, doc.MapNode(true, doc.StrNode("my-org/thing#v1"), nest(dataLevels, doc.StrNode("v"))))
+			}
+			stepKV = append(stepKV, doc.StrNode("plugins"), pl)
+			deepening = true
+		case 1:
+			stepKV = append(stepKV, doc.StrNode("cache"), doc.StrNode("vendor/"))
+			if dataLevels > 0 {
+				stepKV = append(stepKV, doc.StrNode("extra"), nest(dataLevels, doc.StrNode("v")))
+			}
+			deepening = true
+		case 2:
+			stepKV = append(stepKV, doc.StrNode("matrix"), doc.SeqNode(true, doc.StrNode("a"), doc.StrNode("b")))
+			if dataLevels > 0 {
+				stepKV = append(stepKV, doc.StrNode("extra"), nest(dataLevels, doc.StrNode("v")))
+			}
+		case 3:
+			// the data ends in a bare plugin-like list: nothing deepens inside unknown data
+			stepKV = append(stepKV, doc.StrNode("extra"), nest(dataLevels, leaf()))
+		case 4:
+			// a scalar step at the bottom of the groups
+			stepKV = nil
+		default:
+			if dataLevels > 0 {
+				stepKV = append(stepKV, doc.StrNode("extra"), nest(dataLevels, doc.StrNode("v")))
+			}
+		}
+		if stepKV == nil {
+			inner = doc.StrNode("wait")
+		} else {
+			inner = doc.MapNode(true, stepKV...)
+		}
+		// the remaining levels: nested groups (two levels each: the mapping and its step list)
+		groups := (depth - dataLevels) / 2
+		steps := doc.SeqNode(true, inner)
+		for i := 0; i < groups; i++ {
+			steps = doc.SeqNode(true, doc.MapNode(true, doc.StrNode("group"), doc.StrNode("g"), doc.StrNode("steps"), steps))
+		}
+		var root *yaml.Node
+		if rapid.Bool().Draw(t, "barelist") {
+			root = steps
+			deepening = true
+		} else {
+			root = doc.MapNode(true, doc.StrNode("steps"), steps)
+		}
+		text, err := yaml.Marshal(doc.DocNode(root))
+		if err != nil {
+			t.Fatalf("rendering: %v", err)
+		}
+		nt, ok := checkFixpoint(t, "YAML", text, g)
+		_ = nt
+		if !ok {
+			return
+		}
+		recDeep.Case(ev.HashBytes(text), depth > 40 && deepening, fmt.Sprintf("groups>=%d", groups/25*25), fmt.Sprintf("datalevels>=%d", dataLevels/50*50), fmt.Sprintf("tail=%d", tail))
+		recDeep.MaybeSample(depth > 40 && deepening, func() any {
+			return map[string]any{"depth": depth, "groups": groups, "data_levels": dataLevels, "tail": tail, "text_prefix": string(text[:min(len(text), 300)])}
+		})
+	})
 }
 
 // FuzzFixpoint: the same property under Go's coverage-guided fuzzer (thorough tier); the fuzz
